@@ -22,11 +22,32 @@ Oracle (roundtrip) — reference model computed here, never read back from the c
   * second and third body are byte-identical to the first; the second loaded state equals the first loaded state.
 Oracle (discovery): _pick_latest_snapshot_path / load_latest_snapshot / get_latest_snapshot_info return the real body
 with the largest mtime — never a salt — and the restored version is that body's.
+
+Hardening round (dimensions that used to be pinned; every one has a label and a mutant in mutants/C06/):
+  * chains: `mode: chain` = one agent writing a run of 3..6 versions (counter crossing 9->10 / 99->100, standing still, going
+    back; styles 9 / v9 / 009 / 1.9), each link = write -> load(fresh) -> write, optionally keeping the SAME mtime (`freeze`)
+    so consecutive bodies may agree in path, mtime and size; another agent may write in between.
+  * the loader's half of the symmetric sanitisation: `foreign` replaces the body just written by the same body whose gel
+    section is RAW (or sits under the legacy `graph` key); the loaded state and the snapshot taken from it must be those of
+    the genuine body.  Per-generation bounds (`lo`/`hi` in a gen): the previous body is first loaded under the NEW bounds
+    and must come out clamped to them.
+  * config leaves next to the bounds that must not matter (graph.update.clamp_*, graph.decay.floor, graph.enabled,
+    perf.snapshots.* with perf on/off, t4.snapshot_every_n_turns), bounds given as text, ctx exposing only .cfg or only .config,
+    $CLEMATIS_SNAPSHOTS_DIR (legacy) alone or next to the primary variable.
+  * states: graph only at state.gel / empty state.graph + state.gel / state.graph + a stale state.gel; fresh states that carry
+    version None / the same / a LARGER version; delta lists as dataclasses and dicts; int target ids in weight maps; graphs,
+    meta histories and weight maps beyond 64/128 entries; sub-second mtime differences; agent ids such as 'x.json', 'a.meta',
+    '9' / '10'; everything handed to / received from the API is edited in place afterwards (no sharing with later loads).
+  * discovery: real bodies of the two other documented families (snap_<n>.json across a digit boundary, header+payload files
+    of write_snapshot_auto incl. deltas, compression requested, version only in the header); every file written must have
+    its sidecar with the marker.
+  * an exception escaping write_snapshot / load_latest_snapshot / discovery on an input of the domain is a violation.
 """
 from __future__ import annotations
 
 import contextlib
 import copy
+import functools
 import json
 import math
 import os
@@ -43,7 +64,10 @@ RULE = ("roundtrip: Hypothesis-built history of 1..3 generations (agent, version
         "generation runs write->load->write->load->write in a salted directory. NON-TRIVIAL = at least one edge whose "
         "stored form differs from its input form: weight needs clamping, weight needs rounding to 6 decimals, weight is "
         "non-finite, or the record is listed under a non-canonical key/orientation (re-keying). Distinct = digest of the "
-        "whole history. discovery: NON-TRIVIAL = at least one sidecar- or temp-shaped salt file with an mtime newer than "
+        "whole history. One case in six is a CHAIN (one agent, 3..6 versions walking over 9->10 / 99->100 / back / "
+        "standing still, optional frozen mtime); generations may change the bounds before the load, replace the body by its "
+        "raw 'foreign' form, keep the graph at state.gel, and run under distractor config leaves / ctx shapes / env modes. "
+        "discovery: bodies of all three documented families (state_*, snap_<n>, snapshot-*.full/delta.json). NON-TRIVIAL = at least one sidecar- or temp-shaped salt file with an mtime newer than "
         "the newest real body (or no real body at all while such salts exist). Distinct = digest of the directory plan.")
 ASSUMPTIONS = [
     "ids, rels and agent ids are non-empty str; agent ids are valid file-name components; ids never contain the arrow "
@@ -59,6 +83,17 @@ ASSUMPTIONS = [
     "salts get strictly newer mtimes",
     "version_etag is a str (apply.py only ever passes str); write arguments that are not state (turn, applied, deltas) "
     "are the same for the three writes of a generation",
+    "'latest' across file families is made unambiguous by construction: snap_<n> bodies are newer than state_* bodies, "
+    "these newer than snapshot-* files, and a larger <n> is a newer file, so the documented family order and plain mtime "
+    "order agree; mtimes differ by at least 1 ms",
+    "meta.last_update carried by the loader from a foreign body is ignored when two loaded states are compared",
+    "every file write_snapshot_auto returns must be readable back (read_snapshot(path=...) == the payload) with the modules "
+    "installed HERE: zstandard is not, so compression='zstd' has to degrade to something readable (fix 9f474a1); with the "
+    "module present a '.json.zst' file is read back too but is not a discovery candidate (discovery lists *.json only)",
+    "configs are validated ones (world.validated_cfg): graph.weight_min/max and graph.decay.epsilon_prune, which the "
+    "snapshot code would read, are rejected by the validator and therefore never set",
+    "OSError ENOSPC/EMFILE/ENFILE/ENOMEM/EDQUOT and MemoryError from the API are harness errors; any other exception "
+    "escaping write_snapshot / load_latest_snapshot / discovery / write_snapshot_auto is a violation",
 ]
 
 FID_NAN = "snapshot-nan-weight-escapes-clamp"
@@ -367,14 +402,16 @@ def edge_classes(graph, lo, hi):
 # =====================================================================================================
 
 IDS = ["a", "b", "c", "d", "A", "B", "10", "9", "é", "é", "Ä", "日本", "😀", "n:1", "c::a", "a b", "a.b", "ep-6",
-       "a_b", "a__b", "b__c", "c__d", "_", "__", "a_", "_b", "x__coact"]
+       "a_b", "a__b", "b__c", "c__d", "_", "__", "a_", "_b", "x__coact", "\ufb01", "\u00df", "fi", "ss"]
 PLAIN_IDS = ["a", "b", "c", "d", "A", "é", "Ä", "日本", "n:1", "c::a", "ep-6", "10", "9"]
 RELS = ["coact", "concept", "r", "é", "x__y", "y"]
-AGENTS = ["A", "B", "agent-1", "Ä", "日本", "a b", "x.y", "é", "AgentA", "a_b"]
-VERSIONS = ["1", "2", "17", "0", "v1", "é-3", "", "abc123", "00", "-1", "1.0", "None"]
+AGENTS = ["A", "B", "agent-1", "Ä", "日本", "a b", "x.y", "é", "AgentA", "a_b",
+          # names that look like what discovery has to refuse / that sort differently as text and as numbers
+          "a", "9", "10", "x.json", "a.meta", "a.json.meta", "snap_1", "tmp", "state_", "e\u0301"]
+VERSIONS = ["1", "2", "17", "0", "v1", "é-3", "", "abc123", "00", "-1", "1.0", "None", "9", "10", "99", "100"]
 BOUNDS = [(-1.0, 1.0), (-1.0, 1.0), (-1.0, 1.0), (0.0, 1.0), (-1.0, 0.0), (0.2, 0.8), (-0.8, -0.2), (-0.5, 0.5),
           (0.1234567, 0.7654321), (-1, 1), (0.999999, 1.0), (-0.0000005, 0.0000005), (-0.25, 0.3333333333333333),
-          (0.5, 1), (-1, -0.0000015)]
+          (0.5, 1), (-1, -0.0000015), ("-0.5", "0.5"), ("0.25", 1)]
 LOOKALIKES = [
     [("a__b", "c", None), ("a", "b__c", None)], [("b__c", "d", "r"), ("b", "c__d", "r")], [("a_", "b", None), ("a", "_b", None)],
     [("a", "b__x", "y"), ("a", "b", "x__y")], [("a", "ab", None), ("aa", "b", None)], [("a b", "c", None), ("a", "b c", None)],
@@ -389,6 +426,7 @@ def _st():
     return st
 
 
+@functools.lru_cache(maxsize=256)  # building a composite strategy costs an inspect.getsource each time
 def weights_strategy(lo, hi):
     st = _st()
     flo, fhi = float(lo), float(hi)
@@ -410,12 +448,14 @@ def weights_strategy(lo, hi):
     )
 
 
+@functools.lru_cache(maxsize=256)  # building a composite strategy costs an inspect.getsource each time
 def json_leaf():
     st = _st()
     return st.one_of(st.none(), st.booleans(), st.integers(-3, 3), st.sampled_from([0.5, -1.25, 1e-7, 3.0, math.nan, math.inf]),
                      st.sampled_from(["", "x", "é", "a→b", "日本"]))
 
 
+@functools.lru_cache(maxsize=256)  # building a composite strategy costs an inspect.getsource each time
 def json_value(max_leaves=6):
     st = _st()
     keys = st.sampled_from(["k", "é", "", "a.b", "w", "nodes", "n:1"])
@@ -423,6 +463,7 @@ def json_value(max_leaves=6):
                         max_leaves=max_leaves)
 
 
+@functools.lru_cache(maxsize=256)  # building a composite strategy costs an inspect.getsource each time
 def store_strategy():
     st = _st()
 
@@ -443,8 +484,12 @@ def store_strategy():
         if kind == "w":
             n = draw(st.integers(0, 6))
             items = []
+            if draw(st.integers(0, 11)) == 0:  # a weight map larger than any cap the engine knows elsewhere
+                items = [["node" if j % 3 else "edge", f"n{j}", "weight" if j % 2 else "bias", (j % 17) / 16.0 - 0.5]
+                         for j in range(draw(st.sampled_from([70, 130, 300])))]
             for _ in range(n):
-                items.append([draw(st.sampled_from(["node", "edge", "é"])), draw(st.sampled_from(IDS + [ARROW.join(["a", "b"])])),
+                # ids 7 / 0 / -3 are ints whose text collides with no str id of the pool: the exporter documents str(target_id)
+                items.append([draw(st.sampled_from(["node", "edge", "é"])), draw(st.sampled_from(IDS + [ARROW.join(["a", "b"]), 7, 0, -3])),
                               draw(st.sampled_from(["weight", "bias", "é"])),
                               draw(st.one_of(st.sampled_from([0.5, -0.25, 1.0, 0.1234567891, 1e-9, -3.5, 1e300]),
                                              st.floats(allow_nan=False, allow_infinity=False, width=64),
@@ -456,6 +501,7 @@ def store_strategy():
     return stores()
 
 
+@functools.lru_cache(maxsize=256)  # building a composite strategy costs an inspect.getsource each time
 def graph_strategy(lo, hi, max_edges):
     st = _st()
     wts = weights_strategy(lo, hi)
@@ -470,6 +516,22 @@ def graph_strategy(lo, hi, max_edges):
         style = draw(st.sampled_from(["raw", "raw", "raw", "gel", "none"]))
         if style == "none":
             return None
+        if style == "gel" and draw(st.integers(0, 5)) == 0:
+            # a graph larger than any cap the engine knows elsewhere (128 deltas, 64 churn edges, top-64 observe ...)
+            k = draw(st.sampled_from([70, 130, 200]))
+            wpool = draw(st.lists(wts, min_size=3, max_size=3))
+            ids = [f"n{j}" for j in range(k)]
+            edges = {}
+            for j in range(k):
+                a, b = canon_pair(ids[j], ids[(j * 7 + 1) % k])
+                w = wpool[j % 3]
+                edges[canon_key(a, b)] = {"id": canon_key(a, b), "src": a, "dst": b, "rel": "coact", "updated_at": None,
+                                          "weight": 0.0 if isinstance(w, (str, bool, int)) else float(w),
+                                          "attrs": {"coact": j, "last_seen_turn": j}}
+            hist = [{"nodes": [ids[j], ids[(j + 1) % k]], "size": 2, "avg_w": 0.25, "signature": f"{j}"} for j in range(k)]
+            return {"nodes": {i: {"id": i, "label": None, "attrs": {}} for i in ids}, "edges": edges,
+                    "meta": {"schema": "v1.1", "merges": hist, "splits": hist[: k // 2], "promotions": hist[:3],
+                             "concept_nodes_count": k, "edges_count": len(edges)}}
         pool_src = IDS if draw(st.integers(0, 3)) else PLAIN_IDS
         pool = draw(st.lists(st.sampled_from(pool_src), min_size=1, max_size=5, unique=True))
         # ---------- edges
@@ -573,6 +635,7 @@ def graph_strategy(lo, hi, max_edges):
     return graphs()
 
 
+@functools.lru_cache(maxsize=256)  # building a composite strategy costs an inspect.getsource each time
 def edit_strategy(lo, hi):
     """Raw edits applied to a LOADED state to obtain the next generation's state."""
     st = _st()
@@ -583,6 +646,7 @@ def edit_strategy(lo, hi):
     })
 
 
+@functools.lru_cache(maxsize=256)  # building a composite strategy costs an inspect.getsource each time
 def salt_strategy(max_salts):
     st = _st()
     suffix = st.text(alphabet=SUFFIX_ALPHABET, min_size=8, max_size=8)
@@ -595,6 +659,7 @@ def salt_strategy(max_salts):
     }), max_size=max_salts)
 
 
+@functools.lru_cache(maxsize=256)  # building a composite strategy costs an inspect.getsource each time
 def bounds_strategy():
     st = _st()
 
@@ -612,6 +677,7 @@ def bounds_strategy():
     return bounds()
 
 
+@functools.lru_cache(maxsize=256)  # building a composite strategy costs an inspect.getsource each time
 def deltas_strategy():
     st = _st()
     return st.lists(st.fixed_dictionaries({"target_kind": st.sampled_from(["node", "edge"]), "target_id": st.sampled_from(IDS),
@@ -619,30 +685,133 @@ def deltas_strategy():
                                            "op_idx": st.sampled_from([None, 0]), "idx": st.sampled_from([None, 3])}), max_size=2)
 
 
+GRAPH_CLAMPS = [(-1.0, 1.0), (-0.5, 0.5), (0.0, 1.0), (-0.25, 0.0), (-0.1, 0.1)]
+
+
+@functools.lru_cache(maxsize=256)  # building a composite strategy costs an inspect.getsource each time
+def cfg_extra_strategy():
+    """Validated-config leaves that sit next to the snapshot bounds and must NOT influence a snapshot: graph.update.clamp_*,
+    graph.decay.floor, graph.enabled, perf.snapshots.* (with the perf master switch on or off), t4.snapshot_every_n_turns
+    (cadence is the caller's business: write_snapshot is called directly)."""
+    st = _st()
+
+    @st.composite
+    def extras(draw):
+        out = {}
+        if draw(st.integers(0, 2)) == 0:
+            return out
+        if draw(st.booleans()):
+            cmin, cmax = draw(st.sampled_from(GRAPH_CLAMPS))
+            g = {"enabled": draw(st.booleans()), "update": {"clamp_min": cmin, "clamp_max": cmax}}
+            floor = draw(st.sampled_from([0.0, 0.05, 0.3, 1e-6]))
+            g["decay"] = {"floor": min(floor, cmax)}
+            out["graph"] = g
+        if draw(st.booleans()):
+            ps = {}
+            if draw(st.booleans()):
+                ps["compression"] = draw(st.sampled_from(["zstd", "zstd", "none"]))
+            if draw(st.booleans()):
+                ps["level"] = draw(st.sampled_from([1, 3, 19]))
+            if draw(st.booleans()):
+                ps["delta_mode"] = draw(st.booleans())
+            if draw(st.booleans()):
+                ps["every_n_turns"] = draw(st.sampled_from([1, 3, 100]))
+            out["perf"] = {"enabled": draw(st.booleans()), "snapshots": ps}
+        if draw(st.booleans()):
+            out["t4"] = {"snapshot_every_n_turns": draw(st.sampled_from([1, 3, 100]))}
+        return out
+
+    return extras()
+
+
+FRESH_VERSIONS = ["__absent__", "__absent__", "0", "stale", "__next__", "__same__", "__none__"]
+CLOCK_STEPS_NS = [10 * 10 ** 9, 10 * 10 ** 9, 10 ** 6, 10 ** 9 + 1]  # 10 s, 1 ms, a hair over 1 s
+
+
+def _fmt_version(style, v):
+    return {"d": str(v), "v": f"v{v}", "pad": f"{v:03d}", "dot": f"1.{v}"}[style]
+
+
 def roundtrip_strategy(max_gens, max_edges, max_salts):
     st = _st()
+
+    @st.composite
+    def one_gen(draw, flo, fhi, i, prev_agent):
+        g = {"agent": draw(st.sampled_from(AGENTS[:4] if i else AGENTS)) if (i == 0 or draw(st.booleans())) else prev_agent,
+             "version": draw(st.sampled_from(VERSIONS)), "turn": draw(st.sampled_from([0, 1, 7, "3", "junk", None])),
+             "applied": draw(st.sampled_from([0, 1, 5, None])), "deltas": draw(deltas_strategy()),
+             "delta_shape": draw(st.sampled_from(["ns", "ns", "dataclass", "dict"])),
+             "store": draw(store_strategy()), "state_shape": draw(st.sampled_from(["dict", "dict", "ns"])),
+             "graph_key": draw(st.sampled_from(["graph", "graph", "graph", "gel", "both", "graph+stale-gel"])),
+             "fresh_version": draw(st.sampled_from(FRESH_VERSIONS)),
+             "foreign": draw(st.sampled_from([None, None, None, "gel", "graph-key"])),
+             "salts": draw(salt_strategy(max_salts)), "salts2": draw(salt_strategy(1))}
+        return g
+
+    @st.composite
+    def free_gens(draw, flo, fhi):
+        n = min(max_gens, draw(st.sampled_from([1, 1, 1, 2, 2, 3])))
+        gens = []
+        for i in range(n):
+            g = draw(one_gen(flo, fhi, i, gens[-1]["agent"] if gens else None))
+            glo, ghi = flo, fhi
+            if i > 0 and draw(st.integers(0, 2)) == 0:
+                # the process restarts under OTHER bounds: the previous body is first loaded under them
+                b = draw(bounds_strategy())
+                g["lo"], g["hi"] = b
+                glo, ghi = float(b[0]), float(b[1])
+            if i > 0 and draw(st.booleans()):
+                g["base"] = "loaded"
+                g["edit"] = draw(edit_strategy(glo, ghi))
+            else:
+                g["base"] = "new"
+                g["graph"] = draw(graph_strategy(glo, ghi, max_edges))
+            gens.append(g)
+        return gens
+
+    @st.composite
+    def chain_gens(draw, flo, fhi):
+        """One agent writing a RUN of versions into one directory (counter crossing 9->10 / 99->100, standing still, going
+        back), every write followed by a load into a fresh state. Everything but the version (and sometimes the graph)
+        is the same from link to link, so consecutive bodies often have the same size; with `freeze` they also keep the
+        same mtime."""
+        proto = draw(one_gen(flo, fhi, 0, None))
+        other = draw(st.sampled_from(AGENTS[:4]))
+        style = draw(st.sampled_from(["d", "d", "d", "v", "pad", "dot"]))
+        v = draw(st.sampled_from([8, 9, 9, 98, 99, 7, 1, 0, 10]))
+        n = draw(st.integers(3, 6 if max_gens >= 3 else 3))
+        gens = []
+        for i in range(n):
+            g = copy.deepcopy(proto)
+            if i:
+                v = max(0, v + draw(st.sampled_from([1, 1, 1, 1, 0, -1, -2, 10])))
+                g["salts"], g["salts2"] = draw(salt_strategy(1)), []
+                g["fresh_version"] = draw(st.sampled_from(FRESH_VERSIONS))
+                if draw(st.integers(0, 7)) == 0:
+                    g["agent"] = other  # another agent's body lands in between
+            g["version"] = _fmt_version(style, v)
+            g["cycles"] = 1
+            g["freeze"] = draw(st.booleans())
+            what = "new" if i == 0 else draw(st.sampled_from(["same", "same", "edit", "new"]))
+            if what == "new":
+                g["base"] = "new"
+                g["graph"] = draw(graph_strategy(flo, fhi, max_edges))
+            else:
+                g["base"] = "loaded"
+                g["edit"] = draw(edit_strategy(flo, fhi)) if what == "edit" else {"add": None, "drop": [], "reweigh": []}
+            gens.append(g)
+        return gens
 
     @st.composite
     def cases(draw):
         lo, hi = draw(bounds_strategy())
         flo, fhi = float(lo), float(hi)
-        n = min(max_gens, draw(st.sampled_from([1, 1, 1, 2, 2, 3])))
-        gens = []
-        for i in range(n):
-            g = {"agent": draw(st.sampled_from(AGENTS[:4] if i else AGENTS)) if (i == 0 or draw(st.booleans())) else gens[-1]["agent"],
-                 "version": draw(st.sampled_from(VERSIONS)), "turn": draw(st.sampled_from([0, 1, 7, "3", "junk", None])),
-                 "applied": draw(st.sampled_from([0, 1, 5, None])), "deltas": draw(deltas_strategy()),
-                 "store": draw(store_strategy()), "state_shape": draw(st.sampled_from(["dict", "dict", "ns"])),
-                 "fresh_version": draw(st.sampled_from(["__absent__", "0", "stale"])),
-                 "salts": draw(salt_strategy(max_salts)), "salts2": draw(salt_strategy(1))}
-            if i > 0 and draw(st.booleans()):
-                g["base"] = "loaded"
-                g["edit"] = draw(edit_strategy(flo, fhi))
-            else:
-                g["base"] = "new"
-                g["graph"] = draw(graph_strategy(flo, fhi, max_edges))
-            gens.append(g)
-        return {"lo": lo, "hi": hi, "gens": gens, "dir_mode": draw(st.sampled_from(["explicit", "explicit", "relative", "env"]))}
+        mode = draw(st.sampled_from(["free", "free", "free", "free", "free", "chain"]))
+        gens = draw(chain_gens(flo, fhi) if mode == "chain" else free_gens(flo, fhi))
+        return {"lo": lo, "hi": hi, "gens": gens, "dir_mode": draw(st.sampled_from(["explicit", "explicit", "relative", "env", "env+legacy", "legacy-env"])),
+                "mode": mode, "cfg_extra": draw(cfg_extra_strategy()),
+                "ctx_shape": draw(st.sampled_from(["both", "both", "cfg", "config"])),
+                "clock_step_ns": draw(st.sampled_from(CLOCK_STEPS_NS))}
 
     return cases()
 
@@ -671,15 +840,16 @@ def _sandbox():
 _CFG_CACHE = {}
 
 
-def make_cfg(lo, hi, root, dir_mode="explicit"):
+def make_cfg(lo, hi, root, dir_mode="explicit", extra=None):
     """Validated config + the directory the snapshots will live in.
     explicit: t4.snapshot_dir = <sandbox>/snap (absolute);  relative: the validated default ('./.data/snapshots',
     resolved against the sandbox cwd);  env: no t4.snapshot_dir at all -> clematis.io.paths.snapshots_dir() ->
-    $CLEMATIS_SNAPSHOT_DIR (= <sandbox>/snap)."""
+    $CLEMATIS_SNAPSHOT_DIR (= <sandbox>/snap).  `extra`: further overrides (validated together with the bounds)."""
     from harness import world
-    key = (repr(lo), repr(hi))
+    key = (repr(lo), repr(hi), json.dumps(extra or {}, sort_keys=True))
     if key not in _CFG_CACHE:
-        _CFG_CACHE[key] = world.validated_cfg({"t4": {"weight_min": lo, "weight_max": hi}})
+        over = world.deep_merge(extra or {}, {"t4": {"weight_min": lo, "weight_max": hi}})
+        _CFG_CACHE[key] = world.validated_cfg(over)
     cfg = copy.deepcopy(_CFG_CACHE[key])
     snap_dir = os.path.join(root, "snap")
     if dir_mode == "explicit":
@@ -689,7 +859,7 @@ def make_cfg(lo, hi, root, dir_mode="explicit"):
         if os.path.isabs(rel):
             raise RuntimeError(f"harness: validated default t4.snapshot_dir is absolute: {rel}")
         snap_dir = os.path.abspath(rel)  # cwd is <sandbox>/cwd
-    elif dir_mode == "env":
+    elif dir_mode in ("env", "env+legacy", "legacy-env"):
         cfg["t4"].pop("snapshot_dir", None)
         snap_dir = os.path.realpath(snap_dir)
     else:
@@ -697,20 +867,61 @@ def make_cfg(lo, hi, root, dir_mode="explicit"):
     return cfg, snap_dir
 
 
+def make_ctx(cfg, agent, turn, shape="both"):
+    """ctx exposing the config as .cfg and .config (default), or under only one of the two names (the snapshot code reads
+    both and merges them)."""
+    from harness import world
+    ctx = world.make_ctx(cfg, agent=agent, turn_id=turn)
+    if shape == "cfg":
+        delattr(ctx, "config")
+    elif shape == "config":
+        delattr(ctx, "cfg")
+    return ctx
+
+
+@contextlib.contextmanager
+def _snapshot_env(dir_mode, root):
+    """clematis.io.paths.snapshots_dir() documents: $CLEMATIS_SNAPSHOT_DIR first, the legacy $CLEMATIS_SNAPSHOTS_DIR second.
+    env+legacy: both are set (to different directories; the primary one is <sandbox>/snap);  legacy-env: only the legacy
+    variable is set (to <sandbox>/snap)."""
+    keys = ("CLEMATIS_SNAPSHOT_DIR", "CLEMATIS_SNAPSHOTS_DIR")
+    saved = {k: os.environ.get(k) for k in keys}
+    try:
+        if dir_mode == "env+legacy":
+            os.environ["CLEMATIS_SNAPSHOTS_DIR"] = os.path.join(root, "legacy")
+        elif dir_mode == "legacy-env":
+            os.environ.pop("CLEMATIS_SNAPSHOT_DIR", None)
+            os.environ["CLEMATIS_SNAPSHOTS_DIR"] = os.path.join(root, "snap")
+        yield
+    finally:
+        for k, v in saved.items():
+            if v is None:
+                os.environ.pop(k, None)
+            else:
+                os.environ[k] = v
+
+
 class Clock:
-    """Explicit, strictly increasing mtimes (seconds). Salts sit 10**6 s above every real body."""
+    """Explicit, strictly increasing mtimes (integer nanoseconds; `step_ns` apart: 10 s, 1 ms, ...). Salts sit 10**6 s
+    above every real body. `freeze`: a body rewritten in place keeps the mtime it had (it is still the newest)."""
 
-    def __init__(self):
-        self.t = 2_000_000_000
+    def __init__(self, step_ns=10 * 10 ** 9):
+        self.t = 2_000_000_000 * 10 ** 9
+        self.step = int(step_ns)
+        self.newest = None
+        self.n_salt = 0
 
-    def real(self, path):
-        self.t += 10
-        os.utime(path, (self.t, self.t))
+    def real(self, path, freeze=False):
+        if not (freeze and self.newest == path):
+            self.t += self.step
+        os.utime(path, ns=(self.t, self.t))
+        self.newest = path
         return self.t
 
     def salt(self, path):
-        self.t += 1
-        os.utime(path, (self.t + 1_000_000, self.t + 1_000_000), follow_symlinks=True)
+        self.n_salt += 1
+        t = self.t + (1_000_000 + self.n_salt) * 10 ** 9
+        os.utime(path, ns=(t, t), follow_symlinks=True)
 
 
 def other_body(tag):
@@ -728,6 +939,9 @@ def other_body(tag):
 def salt_name(s, agents):
     ag = agents[s["target"] % len(agents)] if agents else "ghost"
     k, suf = s["kind"], s["suffix"]
+    if k == "dir":  # never a directory that is NAMED like a body (agent ids such as 'x.json' would make 'state_x.json')
+        name = [f"state_{ag}.json.d", f"state_{ag}", "tmp", f"state_{ag}.json.{suf}.d"][s["target"] % 4]
+        return name + ".d" if name.endswith(".json") else name
     return {
         "sidecar": f"state_{ag}.json.meta",
         "tmp": f"state_{ag}.json.{suf}",
@@ -793,6 +1007,37 @@ def apply_salts(snap_dir, salts, agents, clock, tag):
     return labels
 
 
+class _Guarded:
+    """The snapshot API as the property sees it: on the inputs of its domain these calls complete (a snapshot that could
+    not be written or loaded restores nothing). An exception escaping one of them is therefore a failure of the property,
+    not of the harness -- except resource exhaustion of the machine the check runs on."""
+    NAMES = ("write_snapshot", "load_latest_snapshot", "_pick_latest_snapshot_path", "get_latest_snapshot_info", "write_snapshot_auto",
+             "read_snapshot")
+
+    def __init__(self, mod, case):
+        self._mod, self._case = mod, case
+
+    def __getattr__(self, name):
+        obj = getattr(self._mod, name)
+        if name not in self.NAMES:
+            return obj
+
+        def call(*a, **k):
+            import errno
+            try:
+                return obj(*a, **k)
+            except MemoryError:
+                raise
+            except OSError as e:
+                if e.errno in (errno.ENOSPC, errno.EMFILE, errno.ENFILE, errno.ENOMEM, errno.EDQUOT):
+                    raise
+                raise Violation(f"{name} raised {type(e).__name__}: {e}", self._case, "raises:" + name)
+            except Exception as e:
+                raise Violation(f"{name} raised {type(e).__name__}: {e}", self._case, "raises:" + name)
+
+        return call
+
+
 def listing(snap_dir):
     return sorted(os.listdir(snap_dir))
 
@@ -812,15 +1057,44 @@ def _get(state, key, default=None):
     return getattr(state, key, default)
 
 
-def _make_state(shape, store, graph, version=None):
+def _make_state(shape, store, graph, version=MISSING, graph_key="graph"):
+    """graph_key: the graph lives at state.graph (default), only at state.gel (the writer's documented fall-back), or at
+    state.gel with an empty state.graph next to it."""
     d = {}
     if store is not None:
         d["store"] = store
     if graph is not None:
-        d["graph"] = graph
-    if version is not None:
+        if graph_key == "gel":
+            d["gel"] = graph
+        elif graph_key == "both":
+            d["graph"] = {}
+            d["gel"] = graph
+        elif graph_key == "graph+stale-gel":  # the writer documents: state.graph first, state.gel only as a fall-back
+            d["graph"] = graph
+            d["gel"] = {"nodes": {"stale": {"id": "stale"}}, "meta": {"merges": [{"signature": "stale"}]},
+                        "edges": {f"stale{ARROW}zz": {"id": f"stale{ARROW}zz", "src": "stale", "dst": "zz", "weight": 0.75,
+                                                      "rel": "coact", "updated_at": None, "attrs": {}}}}
+        else:
+            d["graph"] = graph
+    if version is not MISSING:
         d["version_etag"] = version
     return d if shape == "dict" else SimpleNamespace(**d)
+
+
+def _fresh_version(spec, version):
+    """version_etag a 'fresh' state carries before the load (MISSING = no such key)."""
+    if spec == "__absent__":
+        return MISSING
+    if spec == "__none__":
+        return None
+    if spec == "__same__":
+        return version
+    if spec == "__next__":  # a fresh state that claims to be AHEAD of the snapshot
+        try:
+            return str(int(version) + 1)
+        except ValueError:
+            return version + "z"
+    return spec
 
 
 def _edited_graph(prev_graph, edit):
@@ -866,8 +1140,55 @@ def _edited_graph(prev_graph, edit):
     return g
 
 
-def _deltas(specs):
+def _deltas(specs, shape="ns"):
+    if shape == "dataclass":
+        from clematis.engine.types import ProposedDelta
+        return [ProposedDelta(**d) for d in specs]
+    if shape == "dict":
+        return [dict(d) for d in specs]
     return [SimpleNamespace(**d) for d in specs]
+
+
+def _foreign_body(doc, graph, style):
+    """The body `doc` as another writer (an older release, a hand edit) could have left it: the gel section holds the RAW
+    graph instead of its sanitised form (style 'gel'), or the body has no gel section and the raw graph sits under the
+    legacy `graph` key (style 'graph-key')."""
+    f = dict(doc)
+    if style == "gel":
+        f["gel"] = graph
+    else:
+        f.pop("gel", None)
+        f["graph"] = graph
+    return json.dumps(f).encode("utf-8")
+
+
+def _poison_deep(x, depth=0):
+    """In-place edits at every level of a structure (what a running engine does to its own state)."""
+    if depth > 6:
+        return
+    if isinstance(x, dict):
+        for v in list(x.values()):
+            _poison_deep(v, depth + 1)
+        x["poisoned"] = 0.987654
+        for k in ("weight", "rel", "label", "value", "version_etag"):
+            if k in x:
+                x[k] = 0.987654 if k in ("weight", "value") else "poisoned"
+    elif isinstance(x, list):
+        for v in x:
+            _poison_deep(v, depth + 1)
+        x.append({"signature": "poisoned"})
+
+
+def _poison_graph(g):
+    if isinstance(g, dict):
+        _poison_deep(g)
+
+
+def _strip_last_update(g):
+    if isinstance(g, dict) and isinstance(g.get("meta"), dict) and "last_update" in g["meta"]:
+        g = dict(g)
+        g["meta"] = {k: v for k, v in g["meta"].items() if k != "last_update"}
+    return g
 
 
 def _check_gel_against_ref(where, gel_edges, gel_nodes, nodes_ref, pairs_ref, V):
@@ -895,10 +1216,10 @@ def _check_gel_against_ref(where, gel_edges, gel_nodes, nodes_ref, pairs_ref, V)
         V(f"{where}: nodes {short(gel_nodes)} but the state listed {short(nodes_ref)}", "nodes")
 
 
-def _check_meta(where, meta, graph, n_pairs, V, labels):
+def _check_meta(where, meta, graph, n_pairs, V, labels, count=True):
     if not isinstance(meta, dict):
         V(f"{where}: gel.meta is {type(meta).__name__}", "meta-shape")
-    if meta.get("edges_count") != n_pairs:
+    if count and meta.get("edges_count") != n_pairs:
         V(f"{where}: meta.edges_count = {meta.get('edges_count')!r} but {n_pairs} edges are stored", "meta-edges-count")
     meta_in = graph.get("meta") if isinstance(graph, dict) else None
     if not isinstance(meta_in, dict):
@@ -923,39 +1244,89 @@ def _check_meta(where, meta, graph, n_pairs, V, labels):
 def run_history(case):
     """Execute one history. Returns (labels, nontrivial). Raises Violation."""
     import logging
-    from clematis.engine import snapshot as S
+    from clematis.engine import snapshot as _S
     from harness import world
 
+    S = _Guarded(_S, case)
     logging.disable(logging.CRITICAL)
-    lo, hi = case["lo"], case["hi"]
-    flo, fhi = float(lo), float(hi)
     labels = set()
     nontrivial = False
-    if (flo, fhi) == (-1.0, 1.0):
-        labels.add("bounds:default")
-    else:
-        labels.add("bounds:custom")
-        if flo > 0 or fhi < 0:
-            labels.add("bounds:exclude-zero")
-        if ref_round6(flo) != flo or ref_round6(fhi) != fhi:
-            labels.add("bounds:more-than-6-decimals")
-    labels.add(f"gens:{len(case['gens'])}")
 
-    with _sandbox() as root:
+    def bounds_labels(flo, fhi):
+        if (flo, fhi) == (-1.0, 1.0):
+            labels.add("bounds:default")
+        else:
+            labels.add("bounds:custom")
+            if flo > 0 or fhi < 0:
+                labels.add("bounds:exclude-zero")
+            if ref_round6(flo) != flo or ref_round6(fhi) != fhi:
+                labels.add("bounds:more-than-6-decimals")
+        if isinstance(lo, str) or isinstance(hi, str):
+            labels.add("bounds:given-as-text")
+
+    n_gens = len(case["gens"])
+    labels.add(f"gens:{n_gens}" if n_gens <= 3 else "gens:4+")
+    labels.add("mode:" + case.get("mode", "free"))
+    extra = case.get("cfg_extra") or {}
+    for k in sorted(extra):
+        labels.add("cfg:" + k)
+    if ((extra.get("graph") or {}).get("update") or {}).get("clamp_max", 1.0) != 1.0 or \
+            ((extra.get("graph") or {}).get("update") or {}).get("clamp_min", -1.0) != -1.0:
+        labels.add("cfg:graph.update.clamp!=default")
+    if ((extra.get("graph") or {}).get("decay") or {}).get("floor", 0.0) > 0.0:
+        labels.add("cfg:graph.decay.floor>0")
+    ctx_shape = case.get("ctx_shape", "both")
+    labels.add("ctx:" + ctx_shape)
+    step_ns = case.get("clock_step_ns", 10 * 10 ** 9)
+    labels.add("mtime-step:" + ("sub-second" if step_ns < 10 ** 9 else "seconds"))
+
+    with _sandbox() as root, _snapshot_env(case.get("dir_mode", "explicit"), root):
         dir_mode = case.get("dir_mode", "explicit")
         labels.add("dir:" + dir_mode)
-        cfg, snap_dir = make_cfg(lo, hi, root, dir_mode)
-        clock = Clock()
+        clock = Clock(step_ns)
         prev_loaded_graph = None
+        prev = None  # what the previous generation left behind: {"path","version","gel","lo","hi"}
         agents_seen = []
         for gi, gen in enumerate(case["gens"]):
             def V(msg, sig, _gi=gi):
                 raise Violation(f"[gen {_gi}] {msg}", case, sig)
 
+            lo, hi = gen.get("lo", case["lo"]), gen.get("hi", case["hi"])
+            flo, fhi = float(lo), float(hi)
+            bounds_labels(flo, fhi)
+            cfg, snap_dir = make_cfg(lo, hi, root, dir_mode, extra)
             agent, version = gen["agent"], gen["version"]
             if agent not in agents_seen:
                 agents_seen.append(agent)
-            ctx = world.make_ctx(cfg, agent=agent, turn_id=gen["turn"])
+            if not agent.isalnum():
+                labels.add("agent:punctuated")
+            ctx = make_ctx(cfg, agent, gen["turn"], ctx_shape)
+            freeze = bool(gen.get("freeze"))
+            cycles = gen.get("cycles", 2)
+            gkey = gen.get("graph_key", "graph")
+            foreign = gen.get("foreign")
+
+            if prev is not None and (float(prev["lo"]), float(prev["hi"])) != (flo, fhi):
+                # ---------------------------------------------------------- restart under other bounds
+                # The body on disk was sanitised for the OLD bounds; a load clamps to the bounds configured NOW.
+                labels.add("reconfig:bounds-changed-before-load")
+                st0 = _make_state(gen["state_shape"], None, None)
+                res0 = S.load_latest_snapshot(ctx, st0)
+                if not isinstance(res0, dict) or res0.get("path") is None or os.path.abspath(res0["path"]) != os.path.abspath(prev["path"]):
+                    V(f"load under new bounds read {res0.get('path') if isinstance(res0, dict) else res0!r}, the newest body is "
+                      f"{prev['path']!r}", "discovery-load")
+                if _get(st0, "version_etag") != str(prev["version"]):
+                    V(f"load under new bounds restored version {_get(st0, 'version_etag')!r}; written {prev['version']!r}", "version-restored")
+                g0 = _get(st0, "graph")
+                if not isinstance(g0, dict):
+                    V(f"load under new bounds: state.graph is {type(g0).__name__}", "graph-restored-shape")
+                n0, p0 = ref_gel({"nodes": prev["gel"].get("nodes"), "edges": prev["gel"].get("edges")}, flo, fhi)
+                if any(c["weight"] != prev["gel"]["edges"][k]["weight"] for k, cs in p0.items() for c in cs):
+                    labels.add("reconfig:weight-reclamped")
+                    nontrivial = True
+                _check_gel_against_ref(f"load of a body written under [{prev['lo']}, {prev['hi']}] with bounds now [{lo}, {hi}]",
+                                       g0.get("edges"), g0.get("nodes"), n0, p0, V)
+                prev_loaded_graph = copy.deepcopy(g0)
             sspec = gen["store"]
             labels.add("store:" + sspec["kind"] + ("+w" if sspec.get("with_w") else ""))
             labels.add("state:" + gen["state_shape"])
@@ -976,15 +1347,38 @@ def run_history(case):
                 labels.add("meta:" + ("absent" if m is MISSING else "none" if m is None else "empty" if m == {} else "present"))
             cl, nt = edge_classes(graph, flo, fhi)
             labels |= cl
+            n_e = len(edge_records(graph))
+            if n_e > 64:
+                labels.add("edges:bulk(>128)" if n_e > 128 else "edges:bulk(>64)")
+                if isinstance(graph.get("meta"), dict) and isinstance(graph["meta"].get("merges"), list) and len(graph["meta"]["merges"]) > 64:
+                    labels.add("meta:long-history(>64)")
+            if sspec["kind"] == "w" and len(sspec["items"]) > 64:
+                labels.add("store:w-bulk(>64)")
+            if sspec["kind"] == "w" and any(isinstance(it[1], int) for it in sspec["items"]):
+                labels.add("store:w-int-id")
             nontrivial = nontrivial or nt
 
             nodes_ref, pairs_ref = ref_gel(graph, flo, fhi)
             store_ref = ref_store_export(sspec)
             path_ref = os.path.join(snap_dir, f"state_{agent}.json")
-            applied, deltas = gen["applied"], _deltas(gen["deltas"])
+            applied, deltas = gen["applied"], _deltas(gen["deltas"], gen.get("delta_shape", "ns"))
+            if gen["deltas"]:
+                labels.add("deltas:" + gen.get("delta_shape", "ns"))
+            if graph is not None:
+                labels.add("graph-at:" + gkey)
+            if freeze and clock.newest == path_ref:
+                labels.add("rewrite:same-mtime")
+            if prev is not None and prev["path"] == path_ref:
+                a, b = str(prev["version"]), str(version)
+                labels.add("chain:same-version" if a == b else "chain:version-same-length" if len(a) == len(b)
+                           else "chain:version-longer" if len(b) > len(a) else "chain:version-shorter")
+                if a.isdigit() and b.isdigit():
+                    labels.add("chain:counter-" + ("up" if int(b) > int(a) else "down" if int(b) < int(a) else "still"))
+                    if int(b) > int(a) and b < a:
+                        labels.add("chain:counter-up-but-text-down")
 
             # ------------------------------------------------------------------ write 1
-            state0 = _make_state(gen["state_shape"], make_store(sspec), copy.deepcopy(graph))
+            state0 = _make_state(gen["state_shape"], make_store(sspec), copy.deepcopy(graph), graph_key=gkey)
             p1 = S.write_snapshot(ctx, state0, version, applied, deltas)
             if os.path.abspath(p1) != os.path.abspath(path_ref) or not os.path.isfile(path_ref):
                 V(f"write_snapshot returned {p1!r}; expected the per-agent body {path_ref!r}", "write-path")
@@ -1016,7 +1410,14 @@ def run_history(case):
                 V(f"body has no gel section: {short(gel)}", "gel-missing")
             _check_gel_against_ref("written body", gel.get("edges"), gel.get("nodes"), nodes_ref, pairs_ref, V)
             _check_meta("written body", gel.get("meta"), graph, len(pairs_ref), V, labels)
-            clock.real(path_ref)
+            if foreign and isinstance(graph, dict):
+                # Same body, but with the gel section as a foreign / older writer (or a hand edit) leaves it: raw.  The
+                # loader documents the SAME sanitisation as the writer, so the loaded state and the snapshot taken from it
+                # must be exactly those of the body just checked.
+                labels.add("foreign-body:" + foreign)
+                with open(path_ref, "wb") as f:
+                    f.write(_foreign_body(doc, graph, foreign))
+            clock.real(path_ref, freeze)
             labels |= set(apply_salts(snap_dir, gen["salts"], agents_seen, clock, f"g{gi}a"))
 
             # ------------------------------------------------------------------ discovery + load 1
@@ -1025,16 +1426,20 @@ def run_history(case):
                 if picked is None or os.path.abspath(picked) != os.path.abspath(path_ref):
                     V(f"{tag}: _pick_latest_snapshot_path chose {os.path.basename(picked) if picked else None!r}; the newest real "
                       f"snapshot body is {os.path.basename(path_ref)!r} (directory: {listing(snap_dir)})", "discovery-pick")
-                info = S.get_latest_snapshot_info(None if dir_mode == "env" else snap_dir)
+                info = S.get_latest_snapshot_info(None if dir_mode in ("env", "env+legacy", "legacy-env") else snap_dir)
                 if not isinstance(info, dict) or os.path.abspath(str(info.get("path"))) != os.path.abspath(path_ref):
                     V(f"{tag}: get_latest_snapshot_info -> {short(info)}; expected path {path_ref!r}", "discovery-info")
                 if info.get("schema_version") != "v1" or info.get("version_etag") != version:
                     V(f"{tag}: get_latest_snapshot_info reports schema_version={info.get('schema_version')!r} "
                       f"version_etag={info.get('version_etag')!r}; written: 'v1', {version!r}", "info-fields")
 
+            if foreign and isinstance(graph, dict) and any(len(v) > 1 for v in pairs_ref.values()):
+                labels.add("foreign-body:pair-listed-twice")  # the loader merges them AFTER it counted (fix 8140b74)
+
             def load(tag):
                 fv = gen["fresh_version"]
-                st = _make_state(gen["state_shape"], fresh_store(sspec), None, None if fv == "__absent__" else fv)
+                labels.add("fresh-version:" + (fv if fv.startswith("__") else "other"))
+                st = _make_state(gen["state_shape"], fresh_store(sspec), None, _fresh_version(fv, version))
                 res = S.load_latest_snapshot(ctx, st)
                 if not isinstance(res, dict) or res.get("path") is None or os.path.abspath(res["path"]) != os.path.abspath(path_ref):
                     V(f"{tag}: load_latest_snapshot read {os.path.basename(res.get('path')) if isinstance(res, dict) and res.get('path') else None!r}"
@@ -1092,17 +1497,35 @@ def run_history(case):
                     V(f"{tag}: sidecar missing/unreadable: {e}", "schema-sidecar")
                 if not isinstance(sd, dict) or sd.get("schema_version") != "v1":
                     V(f"{tag}: sidecar {short(sd)} lacks schema_version 'v1'", "schema-sidecar")
-                clock.real(path_ref)
+                clock.real(path_ref, freeze)
 
             rewrite(state1, "write 2")
-            labels |= set(apply_salts(snap_dir, gen["salts2"], agents_seen, clock, f"g{gi}b"))
-            discover("after write 2")
-            state2 = load("load 2")
-            g1, g2 = _get(state1, "graph"), _get(state2, "graph")
-            if not same(g1, g2):
-                V(f"second load yields a different graph than the first: {short(g2, 400)} vs {short(g1, 400)}", "reload-differs")
-            rewrite(state2, "write 3")
-            prev_loaded_graph = copy.deepcopy(_get(state2, "graph"))
+            last_state = state1
+            keep1 = copy.deepcopy(_get(state1, "graph"))
+            if gen.get("poison", True):
+                # whatever the writer / loader handed out or was handed must not be shared with later calls
+                _poison_graph(_get(state0, gkey.split("+")[0] if gkey != "both" else "gel"))
+                if cycles >= 2:
+                    _poison_graph(_get(state1, "graph"))
+                    st1 = _get(state1, "store")
+                    if isinstance(st1, ExportStore):
+                        _poison_deep(st1.data)
+                    elif isinstance(st1, WStore):
+                        for k in list(st1.w):
+                            st1.w[k] = 0.987654
+            if cycles >= 2:
+                labels |= set(apply_salts(snap_dir, gen["salts2"], agents_seen, clock, f"g{gi}b"))
+                discover("after write 2")
+                state2 = load("load 2")
+                g1, g2 = keep1, _get(state2, "graph")
+                if foreign:
+                    g1 = _strip_last_update(g1)  # legacy summaries: carried by the loader, never written
+                if not same(g1, g2):
+                    V(f"second load yields a different graph than the first: {short(g2, 400)} vs {short(g1, 400)}", "reload-differs")
+                rewrite(state2, "write 3")
+                last_state = state2
+            prev_loaded_graph = copy.deepcopy(_strip_last_update(_get(last_state, "graph")))
+            prev = {"path": path_ref, "version": version, "gel": gel, "lo": lo, "hi": hi}
     return labels, nontrivial
 
 
@@ -1245,7 +1668,8 @@ def sub_roundtrip(rec, seed, shard, nshards, n=300, max_gens=3, max_edges=6, max
         labels, nt = check_history(case, rec)
         rec.case(nontrivial=nt, dig=digest(case) if nt else None, labels=sorted(labels),
                  sample={"lo": case["lo"], "hi": case["hi"], "gen0": {k: case["gens"][0].get(k) for k in ("agent", "version", "store", "graph")}}
-                 if nt and len(case["gens"]) == 1 else None)
+                 if nt and len(case["gens"]) == 1 and "edges:bulk(>64)" not in labels and "edges:bulk(>128)" not in labels
+                 and "store:w-bulk(>64)" not in labels else None)
 
     run_hypothesis(rec, seed, roundtrip_strategy(max_gens, max_edges, max_salts), body, max_examples=n, shrink=shrink,
                    name="roundtrip")
@@ -1258,6 +1682,10 @@ def replay_roundtrip(case):
 # =====================================================================================================
 # discovery
 # =====================================================================================================
+
+SNAP_NUMBERS = [["9", "10"], ["000009", "000010"], ["99", "100"], ["2", "10", "9"], ["000099", "100"], ["7"], ["0", "1"],
+                ["09", "10", "8"], ["1", "2"]]
+
 
 def discovery_strategy(max_salts):
     st = _st()
@@ -1274,63 +1702,170 @@ def discovery_strategy(max_salts):
         if not salts or draw(st.booleans()):
             salts = salts + [{"kind": draw(st.sampled_from(["sidecar", "tmp", "meta_tmp"])), "suffix": draw(st.text(alphabet=SUFFIX_ALPHABET, min_size=8, max_size=8)),
                               "content": "body", "target": draw(st.integers(0, 3))}]
-        return {"reals": reals, "order": list(order), "salts": salts, "rewrite_newest": draw(st.booleans())}
+        case = {"reals": reals, "order": list(order), "salts": salts, "rewrite_newest": draw(st.booleans()),
+                "step_ns": draw(st.sampled_from(CLOCK_STEPS_NS))}
+        # bodies of the two other documented families: numbered snap_<n>.json and the header+payload files of
+        # write_snapshot_auto (snapshot-<etag>.full.json[.zst], snapshot-<etag>.delta.json)
+        fam = draw(st.sampled_from(["state", "state", "state", "snap", "pr34", "pr34+state", "snap+state"]))
+        if "snap" in fam:
+            case["snaps"] = [{"n": n, "version": f"S{n}", "edge": draw(st.booleans())}
+                             for n in draw(st.permutations(draw(st.sampled_from(SNAP_NUMBERS))))]
+        if "pr34" in fam:
+            case["autos"] = [{"etag": draw(st.sampled_from(["1", "9", "10", "é", "a.b", "x.json", ""])) + f"@{i}",
+                              "compression": draw(st.sampled_from(["none", "none", "zstd"])),
+                              "level": draw(st.sampled_from([1, 3, 19])),
+                              "delta": draw(st.booleans()), "edge": draw(st.booleans()),
+                              "drop_version": draw(st.sampled_from([False, False, True]))}
+                             for i in range(draw(st.integers(1, 3)))]
+        if fam in ("snap", "pr34"):
+            case["reals"], case["order"] = [], []
+        return case
 
     return cases()
 
 
+def _check_sidecar(path, V):
+    side = path + ".meta"
+    try:
+        with open(side, "r", encoding="utf-8") as f:
+            sdoc = json.load(f)
+    except (OSError, ValueError) as e:
+        V(f"snapshot {os.path.basename(path)!r} was written without a readable sidecar {os.path.basename(side)!r}: {e}", "schema-sidecar")
+    if not isinstance(sdoc, dict) or sdoc.get("schema_version") != "v1":
+        V(f"sidecar of {os.path.basename(path)!r} holds {short(sdoc)}: no schema_version 'v1'", "schema-sidecar")
+
+
 def run_discovery(case):
     import logging
-    from clematis.engine import snapshot as S
+    from clematis.engine import snapshot as _S
     from harness import world
 
+    S = _Guarded(_S, case)
     logging.disable(logging.CRITICAL)
     labels = set()
     with _sandbox() as root:
         cfg, snap_dir = make_cfg(-1.0, 1.0, root)
+        stage_cfg = copy.deepcopy(cfg)
+        stage_cfg["t4"]["snapshot_dir"] = os.path.join(root, "stage")
 
         def V(msg, sig):
             raise Violation(msg + f"  (directory: {listing(snap_dir)})", case, sig)
 
+        def state_for(owner, edge):
+            graph = {"nodes": {}, "edges": {}}
+            if edge:
+                graph["edges"] = {"a→b": {"id": "a→b", "src": "a", "dst": "b", "weight": 0.5, "rel": "coact", "updated_at": None, "attrs": {}}}
+            return {"store": WStore([["node", owner, "weight", 0.25]]), "graph": graph}
+
+        def staged_body(owner, version, edge):
+            """A genuine body (bytes) produced by write_snapshot in a side directory."""
+            p = S.write_snapshot(world.make_ctx(stage_cfg, agent="stage", turn_id=1), state_for(owner, edge), version, 0, [])
+            with open(p, "rb") as f:
+                return f.read()
+
+        step = int(case.get("step_ns", 10 * 10 ** 9))
+        labels.add("mtime-step:" + ("sub-second" if step < 10 ** 9 else "seconds"))
+        base = 2_000_000_000 * 10 ** 9
+        # every candidate: {"path", "owner" (who its weights belong to), "version", "t" (mtime ns), "family"}
+        cands = []
+
+        # ---- family 3 (lowest priority): header+payload files of write_snapshot_auto -- oldest mtimes
+        t = base
+        prev_etag = None
+        for a in case.get("autos") or []:
+            owner = "auto:" + a["etag"]
+            payload = json.loads(staged_body(owner, a["etag"], a["edge"]).decode("utf-8"))
+            if a.get("drop_version"):
+                # header+payload files: the loader documents "body version_etag first, else the header's etag_to"
+                payload.pop("version_etag", None)
+                labels.add("auto:version-only-in-header")
+            p, was_delta = S.write_snapshot_auto(snap_dir, etag_from=prev_etag, etag_to=a["etag"], payload=payload,
+                                                 compression=a["compression"], level=a["level"],
+                                                 delta_mode=bool(a["delta"] and prev_etag is not None))
+            if not os.path.isfile(p):
+                V(f"write_snapshot_auto returned {p!r} which does not exist", "write-path")
+            _check_sidecar(p, V)  # every snapshot written carries the frozen schema marker
+            # ... and round-trips: whatever codec was asked for, the file just written is read back to the payload
+            # (a requested codec whose module is missing must degrade to a READABLE file)
+            back = S.read_snapshot(path=p)
+            if not same(back, payload):
+                V(f"write_snapshot_auto(compression={a['compression']!r}) wrote {os.path.basename(p)!r} but read_snapshot(path=...) "
+                  f"gives {short(back)} instead of the payload {short(payload)}", "auto-readback")
+            if a["compression"] == "zstd" and getattr(_S, "_zstd", None) is None:
+                labels.add("auto:zstd-requested-module-missing")
+            labels.add("auto:" + ("delta" if was_delta else "full") + ("+zstd-requested" if a["compression"] == "zstd" else ""))
+            t += step
+            os.utime(p, ns=(t, t))
+            os.utime(p + ".meta", ns=(t, t))
+            if p.endswith(".json"):
+                cands.append({"path": p, "owner": owner, "version": a["etag"], "t": t, "family": "auto", "edge": a["edge"],
+                              "no_info": bool(was_delta or a.get("drop_version"))})
+                if not was_delta:
+                    prev_etag = a["etag"]
+            else:
+                labels.add("auto:compressed-name-not-a-candidate")
+
+        # ---- family 2: per-agent state_<agent>.json bodies
         reals = case["reals"]
         paths = []
         for r in reals:
             ctx = world.make_ctx(cfg, agent=r["agent"], turn_id=1)
-            graph = {"nodes": {}, "edges": {}}
-            if r["edge"]:
-                graph["edges"] = {"a→b": {"id": "a→b", "src": "a", "dst": "b", "weight": 0.5, "rel": "coact", "updated_at": None, "attrs": {}}}
-            st = {"store": WStore([["node", r["agent"], "weight", 0.25]]), "graph": graph}
-            paths.append(S.write_snapshot(ctx, st, r["version"], 0, []))
+            paths.append(S.write_snapshot(ctx, state_for(r["agent"], r["edge"]), r["version"], 0, []))
+            _check_sidecar(paths[-1], V)
         # explicit mtimes: rank order[i] for real i (distinct)
-        base = 2_000_000_000
+        t0 = t + step
         newest = None
         for i, p in enumerate(paths):
-            t = base + 10 * (case["order"][i] + 1)
-            os.utime(p, (t, t))
-            os.utime(p + ".meta", (t, t))
+            ti = t0 + step * (case["order"][i] + 1)
+            os.utime(p, ns=(ti, ti))
+            os.utime(p + ".meta", ns=(ti, ti))
+            t = max(t, ti)
+            cands.append({"path": p, "owner": reals[i]["agent"], "version": reals[i]["version"], "t": ti, "family": "state",
+                          "edge": reals[i]["edge"]})
             if case["order"][i] == len(paths) - 1:
                 newest = i
-        clock = Clock()
-        clock.t = base + 1000
-        agents = [r["agent"] for r in reals]
-        labels |= set(apply_salts(snap_dir, case["salts"], agents, clock, "d"))
-        labels.add(f"real-bodies:{len(reals)}")
         if reals and newest != len(reals) - 1:
             labels.add("newest-is-not-last-written")
+        if any(not r["agent"].isalnum() for r in reals):
+            labels.add("agent:punctuated")
+
+        # ---- family 1 (highest priority): numbered snap_<n>.json; the larger number is also the newer file
+        snaps = case.get("snaps") or []
+        for sn in sorted(snaps, key=lambda x: int(x["n"])):
+            p = os.path.join(snap_dir, f"snap_{sn['n']}.json")
+            with open(p, "wb") as f:
+                f.write(staged_body("snap:" + sn["n"], sn["version"], sn["edge"]))
+            t += step
+            os.utime(p, ns=(t, t))
+            cands.append({"path": p, "owner": "snap:" + sn["n"], "version": sn["version"], "t": t, "family": "snap", "edge": sn["edge"]})
+        if snaps:
+            digits = {len(str(int(sn["n"]))) for sn in snaps}
+            labels.add("snap-numbered:" + ("digit-boundary" if len(digits) > 1 else "same-width"))
+
+        clock = Clock()
+        clock.t = t + 1000 * 10 ** 9
+        agents = [r["agent"] for r in reals]
+        labels |= set(apply_salts(snap_dir, case["salts"], agents, clock, "d"))
+        labels.add(f"real-bodies:{min(len(cands), 4)}")
+        labels.add("families:" + "+".join(sorted({c["family"] for c in cands})) if cands else "families:none")
         nontrivial = any(s["kind"] in SIDECARISH or s["kind"] in TEMPISH for s in case["salts"])
 
-        expected = os.path.abspath(paths[newest]) if reals else None
+        # 'latest': by construction the documented family order (snap_<n> by number, then state_* by mtime, then any *.json
+        # by mtime) and plain mtime order agree, so the expectation does not depend on which of the two one reads into it
+        best = max(cands, key=lambda c: c["t"]) if cands else None
+        expected = os.path.abspath(best["path"]) if best else None
         picked = S._pick_latest_snapshot_path(snap_dir)
         if (os.path.abspath(picked) if picked else None) != expected:
             V(f"_pick_latest_snapshot_path chose {os.path.basename(picked) if picked else None!r}; expected "
               f"{os.path.basename(expected) if expected else None!r} (newest real snapshot body)", "discovery-pick")
         info = S.get_latest_snapshot_info(snap_dir)
-        if reals:
+        if best:
             if not isinstance(info, dict) or os.path.abspath(str(info.get("path"))) != expected:
                 V(f"get_latest_snapshot_info -> {short(info)}; expected the body {os.path.basename(expected)!r}", "discovery-info")
-            if info.get("version_etag") != reals[newest]["version"] or info.get("schema_version") != "v1":
+            # (the metadata probe does not reconstruct deltas: its fields are only asserted for full bodies)
+            if not best.get("no_info") and (info.get("version_etag") != best["version"] or info.get("schema_version") != "v1"):
                 V(f"get_latest_snapshot_info reports version {info.get('version_etag')!r} / schema {info.get('schema_version')!r}; "
-                  f"the newest body holds {reals[newest]['version']!r} / 'v1'", "info-fields")
+                  f"the newest body holds {best['version']!r} / 'v1'", "info-fields")
         elif info is not None:
             V(f"get_latest_snapshot_info -> {short(info)} although the directory holds no snapshot body", "discovery-info")
 
@@ -1338,29 +1873,34 @@ def run_discovery(case):
         store = WStore()
         st = {"store": store, "version_etag": "untouched"}
         res = S.load_latest_snapshot(ctx, st)
-        if reals:
+        if best:
             if res.get("path") is None or os.path.abspath(res["path"]) != expected:
                 V(f"load_latest_snapshot read {os.path.basename(res['path']) if res.get('path') else None!r}; expected "
                   f"{os.path.basename(expected)!r}", "discovery-load")
-            if res.get("loaded") is not True or st.get("version_etag") != reals[newest]["version"]:
+            if res.get("loaded") is not True or st.get("version_etag") != best["version"]:
                 V(f"load_latest_snapshot: loaded={res.get('loaded')!r}, version {st.get('version_etag')!r}; the newest body holds "
-                  f"{reals[newest]['version']!r}", "version-restored")
-            if store.w != {("node", reals[newest]["agent"], "weight"): 0.25}:
+                  f"{best['version']!r}", "version-restored")
+            if store.w != {("node", best["owner"], "weight"): 0.25}:
                 V(f"load_latest_snapshot restored weights {store.w!r} — not those of the newest body "
-                  f"(agent {reals[newest]['agent']!r})", "store-restored")
+                  f"({best['owner']!r})", "store-restored")
+            got_e = (st.get("graph") or {}).get("edges")
+            want_e = {"a→b": {"id": "a→b", "src": "a", "dst": "b", "weight": 0.5, "rel": "coact", "updated_at": None, "attrs": {}}} if best["edge"] else {}
+            if not same(got_e, want_e):
+                V(f"load_latest_snapshot restored edges {short(got_e)} — the newest body ({best['owner']!r}) holds {short(want_e)}",
+                  "graph-restored")
         else:
             if res.get("loaded") or res.get("path") is not None or st.get("version_etag") != "untouched" or store.w:
                 V(f"no snapshot body in the directory, yet load_latest_snapshot -> {short(res)} and version "
                   f"{st.get('version_etag')!r}, weights {store.w!r}", "discovery-load-salt")
             labels.add("only-salts")
-        if reals and case["rewrite_newest"]:
+        if reals and not snaps and case["rewrite_newest"]:
             # rewriting through the atomic writer must not leave anything discovery could trip over
             r = reals[newest]
             ctx = world.make_ctx(cfg, agent=r["agent"], turn_id=2)
             st2 = {"store": WStore([["node", r["agent"], "weight", 0.25]]), "graph": {"nodes": {}, "edges": {}}}
             p = S.write_snapshot(ctx, st2, r["version"] + "'", 0, [])
-            far = base + 5_000_000
-            os.utime(p, (far, far))
+            far = clock.t + 5_000_000 * 10 ** 9
+            os.utime(p, ns=(far, far))
             got = S._pick_latest_snapshot_path(snap_dir)
             if got is None or os.path.abspath(got) != os.path.abspath(p):
                 V(f"after rewriting {os.path.basename(p)!r} discovery chose {os.path.basename(got) if got else None!r}", "discovery-pick")
@@ -1416,7 +1956,7 @@ KNOWN_PROBES = {
 
 SUBCHECKS = [
     Sub("roundtrip", sub_roundtrip, quick={"n": 400, "max_gens": 3, "max_edges": 6, "max_salts": 3},
-        thorough={"n": 2500, "max_gens": 3, "max_edges": 10, "max_salts": 4}, shards_quick=4, shards_thorough=16,
+        thorough={"n": 2000, "max_gens": 3, "max_edges": 10, "max_salts": 4}, shards_quick=4, shards_thorough=16,
         replay=replay_roundtrip),
     Sub("discovery", sub_discovery, quick={"n": 150, "max_salts": 5}, thorough={"n": 1000, "max_salts": 8},
         shards_quick=2, shards_thorough=8, replay=replay_discovery),
